@@ -189,6 +189,11 @@ def _r18_1(ctx, run, rule='R18.1'):
             nozero = rng.intersect(IntervalSet([(0, 0)])).empty()
             # the source of the cast must be the matched value itself
             srcv = strip_casts(src)
+            # `N::try_from(v)` matched as Ok(x): x is v itself (in the narrower type)
+            sv_ = deref_all(srcv)
+            if sv_[0] == 'field' and sv_[1][0] == 'downcast' and sv_[1][2] == 'Ok' and sv_[1][1][0] == 'call' and sv_[1][1][1].endswith('::try_from') and 'TryFrom<' in sv_[1][1][1] \
+                    and len(sv_[1][1][2]) == 1:
+                srcv = strip_casts(deref_all(sv_[1][1][2][0]))
             same = atom is not None and (srcv == atom or deref_all(srcv) == atom)
             ok = signed_ok and lossless and shortest and nozero and same
             msg = f'values {rng} -> tag {tagb:#x} + {ty} big-endian ({WIDTH[ty]} bytes)'
@@ -389,7 +394,21 @@ def r18_2(ctx, run, rule='R18.2', enc_table=None):
                     unrec.append(res[2])
         if tag is None and not tag_other and res != ('Err',):
             unrec.append('no tag test on the path to ' + str(res)[:60])
-        key = (tname.get(tag, tag) if not tag_other else 'otherwise', plen if plen is not None else ('otherwise' if len_other is not None else None))
+        lkey = plen if plen is not None else ('otherwise' if len_other is not None else None)
+        if lkey is None and res is not None and res[0] == 'be':
+            # no exact length test on a path that decodes a fixed-width payload: what do the comparisons on the path leave possible?
+            try:
+                pf_ = PathFacts(p.conds, nonneg=lambda a_: True)
+                for c_ in p.conds:
+                    for a_ in subterms(c_[0]):
+                        whole = (a_[0] == 'len' and is_arg(a_[1], 1)) or (a_[0] == 'call' and called(a_[1], 'slice::len', 'len') and a_[2] and is_arg(a_[2][0], 1))
+                        if whole:
+                            r_ = pf_.range_of(a_).intersect(IntervalSet([(0, INF)]))
+                            if not r_.empty() and (r_.lo() != r_.hi()) and r_.lo() > 0:
+                                lkey = ('range', r_.lo() - 1, (r_.hi() - 1) if r_.hi() != INF else INF)
+            except Exception:
+                pass
+        key = (tname.get(tag, tag) if not tag_other else 'otherwise', lkey)
         table.setdefault(key, set()).add(res)
     loc = f'{b.file}:{b.line}'
     exp = {
@@ -418,6 +437,9 @@ def r18_2(ctx, run, rule='R18.2', enc_table=None):
                 run.proved(rule, b.path, d, '-> Float64(NaN)', loc)
                 continue
             recognised_wrong = got and all(r is not None and r[0] != '?' for r in got)
+            if got and ('Err',) in got and len(got) > 1:
+                recognised_wrong = False      # success and failure under one (tag, length) key: the length test on these paths was not read
+                unrec = unrec or ['paths with the same recognised tag and payload length both succeed and fail']
             if recognised_wrong or (not got and not unrec):
                 run.violation(rule, b.path, d, f'expected {sorted(v)}, found {sorted(map(str, got)) if got else "no such row"}: the decoder does not invert the encoder for this (tag, payload length)', loc)
             else:
@@ -425,7 +447,10 @@ def r18_2(ctx, run, rule='R18.2', enc_table=None):
                               f'the row could not be compared with the encoder', loc)
     for k, got in table.items():
         if k not in exp and got != {('Err',)} and got != {None}:
-            if k[0] is None or any(r is None or r[0] == '?' for r in got):
+            if isinstance(k[1], tuple) and k[1][0] == 'range' and any(r is not None and r[0] == 'be' for r in got):
+                run.violation(rule, b.path, f'row[{k[0]},{k[1][1]}..]', f'a payload of any length from {k[1][1]} to {"unbounded" if k[1][2] == INF else k[1][2]} is decoded as {sorted(map(str, got))}: '
+                              'the encoder writes exactly one width for this form, longer (malformed) payloads must be rejected', loc)
+            elif k[0] is None or k[1] is None or any(r is None or r[0] == '?' for r in got) or (('Err',) in got and len(got) > 1):
                 run.undecided(rule, b.path, f'row[{k[0]},{k[1]}]', f'decoder path with unrecognised discriminator or result {sorted(map(str, got))[:3]}', loc)
             else:
                 run.violation(rule, b.path, f'row[{k[0]},{k[1]}]', f'unexpected decoder row {sorted(map(str, got))} (the encoder never produces this form)', loc)
@@ -626,7 +651,7 @@ def r18_4(ctx, run, rule='R18.4'):
             table.setdefault((l, r), []).append(q)
         for pair in [(a, c) for a in vs for c in vs]:
             if pair not in table:
-                run.violation(rule, b.path, f'pair[{pair[0]},{pair[1]}]', 'no arm compares this pair of representations (anchor lost)', f'{b.file}:{b.line}')
+                run.undecided(rule, b.path, f'pair[{pair[0]},{pair[1]}]', 'no arm for this pair of representations was recognised (anchor lost; the match is exhaustive by construction in Rust): not decided', f'{b.file}:{b.line}')
             else:
                 run.proved(rule, b.path, f'pair[{pair[0]},{pair[1]}]', f'{len(table[pair])} path(s)', f'{b.file}:{b.line}', nontrivial=False)
         # Int64 vs UInt64: negative is Less, otherwise compared as u64 after a value-preserving cast
